@@ -108,6 +108,11 @@ def case_tol(case):
 
 def _pool(rng, whole=False):
     k = rng.randint(2, 5)
+    if rng.random() < 0.12:
+        # NUMERIC SCALE class: the same small differences on a large offset (pressure in Pa, heights in m):
+        # exact in float64 / float32 / int32; a relative tolerance slipped into a comparison with theta shows only here
+        base = rng.choice([101325.0, -65536.0])   # float32 still resolves 2^-7 here (the left-limit probes need 2^-4)
+        return [base + (float(rng.randint(-8, 8)) if whole else rng.randint(-16, 16) / 4) for _ in range(k)]
     if whole:
         # whole numbers (degrees, mm ...): the only values an integer-dtype array can hold
         return [float(rng.randint(-8, 8)) for _ in range(k)]
